@@ -16,6 +16,7 @@ type Opts struct {
 	Defs        bool // $defs + $ref
 	Comp        bool // allOf / anyOf
 	Addl        bool // additionalProperties
+	Maps        bool // property-less objects with a typed additionalProperties (Go maps)
 	Defaults    bool
 	Formats     bool
 	Nullable    bool
@@ -32,7 +33,7 @@ type Opts struct {
 }
 
 func AllOpts() Opts {
-	return Opts{Defs: true, Comp: true, Addl: true, Defaults: true, Formats: true, Nullable: true, Enums: true, MaxDepth: 3, Unicode: true}
+	return Opts{Defs: true, Comp: true, Addl: true, Maps: true, Defaults: true, Formats: true, Nullable: true, Enums: true, MaxDepth: 3, Unicode: true}
 }
 
 type G struct {
@@ -244,6 +245,9 @@ func (g *G) branch(names []string) M {
 	return b
 }
 
+// ObjBranch is an object schema over the given property names (integer / string / boolean, random required).
+func (g *G) ObjBranch(names []string) M { return g.branch(names) }
+
 func (g *G) CompSchema() M {
 	r := g.R
 	kind := core.Pick(r, []string{"allOf", "anyOf"})
@@ -280,6 +284,9 @@ func (g *G) PropSchema(depth int, inArray bool) M {
 	if depth < 2 && g.O.Comp {
 		kinds = append(kinds, "comp")
 	}
+	if g.O.Maps && !inArray {
+		kinds = append(kinds, "map")
+	}
 	if len(g.Defs) > 0 && r.P(0.25) {
 		g.hit("kw:$ref")
 		pre := "#/$defs/"
@@ -306,6 +313,23 @@ func (g *G) PropSchema(depth int, inArray bool) M {
 		s = g.ArrSchema(depth)
 	case "comp":
 		return g.CompSchema()
+	case "map":
+		g.hit("kw:map")
+		var v M
+		switch r.Intn(5) {
+		case 0:
+			v = g.NumSchema("integer")
+		case 1:
+			v = g.NumSchema("number")
+		case 2:
+			v = M{"type": "string"}
+		case 3:
+			v = M{"type": "boolean"}
+		default:
+			v = M{"type": "array", "items": M{"type": "integer"}}
+		}
+		delete(v, "format")
+		s = M{"type": "object", "additionalProperties": v}
 	default:
 		s = g.ObjSchema(depth)
 	}
